@@ -182,6 +182,20 @@ def w_wellknown(idx):
     return evs
 
 
+def w_long(idx):
+    """Texts and tails with MANY whitespace runs (a line-wrapped paragraph): the policy applies to the whole text, not to its
+    first few dozen runs."""
+    evs = []
+    for i in idx:
+        nwords = [33, 34, 40, 70, 130, 300][i % 6]
+        sep = [" \n   ", "  ", "\t", " \u00a0 "[1:-1] + " ", "\n"][i % 5]
+        text = sep.join("w%d" % k for k in range(nwords))
+        m, clean, collapse = MODES[i % len(MODES)]
+        doc = "<r><x>" + esc_text(text) + "</x>" + esc_text(" " + text + " ") + "<y>" + esc_text(text.replace("w", "v")) + "</y></r>"
+        evs += record_import(doc, m, clean, collapse, ("y",) if i % 2 else (), {"kind": "long", "words": nwords, "separator": sep, "clean": clean, "collapse": collapse, "lits": ["y"] if i % 2 else []})
+    return evs
+
+
 def w_seeded(seeds):
     evs = []
     for seed in seeds:
@@ -207,6 +221,7 @@ def run(rep, tier, seed):
     evs = [e for chunk in parallel(w_exhaustive, strings) for e in chunk]
     nx = 500 if tier == "quick" else 15000
     evs += [e for chunk in parallel(w_seeded, [seed * 2750159 + i for i in range(nx)]) for e in chunk]
+    evs += [e for chunk in parallel(w_long, range(60)) for e in chunk]
     evs += [e for chunk in parallel(w_wellknown, range(2 * len(CONVENTIONAL) * len(WELL_KNOWN_URIS))) for e in chunk]
     judged = [e for e in evs if e["op"] != "failed"]
     legacy_info = []
